@@ -53,6 +53,7 @@ type c09Run struct {
 func newC09Run(p *Prog) *c09Run {
 	r := &c09Run{p: p}
 	m := NewMachine(p, nil)
+	m.CycleCheck = true
 	m.StepLimit = 1200000 // exact documents with fields of several thousand bytes, parsed a byte at a time
 	installStringModels(m)
 	installFuncModels(m)
